@@ -235,11 +235,11 @@ func DuplicateWithIndex[T comparable](slice []T) map[T]int {
 // Merge merges the first slice with the other slices defined as variadic parameter.
 func Merge[T any](s []T, params ...[]T) []T {
 	merged := make([]T, 0, len(s))
+	merged = append(merged, s...)
 
 	for i := 0; i < len(params); i++ {
 		merged = append(merged, params[i]...)
 	}
-	merged = append(s, merged...)
 
 	return merged
 }
